@@ -224,10 +224,18 @@ def x5(ctx, rid):
     c04.t1(ctx, rid)
 
 
+def x6(ctx, rid):
+    """what a dropped close() / a crash during the index dump leaves behind (an empty or cut index file) never fails the next
+    start (C03.I10 instance)"""
+    import props.c03 as c03
+    c03.i10(ctx, rid)
+
+
 RULES = [
     Rule('C14.X1', 'reservation of a file offset and the OS write consuming it lie in non-coroutine bodies run by a blocking runner', x1, 4),
     Rule('C14.X2', 'no suspension point between the completed record append and its index push', x2, 2),
     Rule('C14.X3', 'in client-cancellable bodies no suspension point is reachable between a move-out of shared state and its hand-back', x3, 4),
     Rule('C14.X5', 'a blob is published in the active slot only once its index is in memory (C04.T1 instances)', x5, 7),
+    Rule('C14.X6', 'a short (empty / cut) index file left by an interrupted dump is regenerated at the next start (C03.I10 instance)', x6, 1),
     Rule('C14.X4', 'no RAII guard whose Drop undoes a counter reservation is live across a suspension point of a client-cancellable future', x4, 1),
 ]
